@@ -59,8 +59,8 @@ def _build(names, circular, key0=0, with_resids=True):
                     "residue graphs that are not a single strand"],
            selector_only=True,
            must_cover=["linear", "circular", "unknown rejected", "n=1", "without resids"],
-           bounds={"quick": dict(nmax=4, alphabet=["DA", "DT", "DG", "DC", "DA5", "DC3", "DG3", "DT5", "XX"], key0=[0, 1]),
-                   "thorough": dict(nmax=4, alphabet=ALL12 + ["XX", "A"], key0=[0, 1, 10])},
+           bounds={"quick": dict(nmax=4, alphabet=["DA", "DT", "DG", "DC", "DA5", "DC3", "DG3", "DT5", "XX", "DA7", "DTX"], key0=[0, 1]),
+                   "thorough": dict(nmax=4, alphabet=ALL12 + ["XX", "A", "DA7", "DTX", "DG53"], key0=[0, 1, 10])},
            budget={"quick": 200, "thorough": 1500})
 def complement(sx, B):
     """Real complement_dsDNA on a strand built with the real linear builder: length n symbolic in 1..nmax, every residue name a
@@ -134,7 +134,7 @@ def complement(sx, B):
 
 @condition("C19.gen_params",
            anchors=["polyply.src.gen_itp:gen_params", "polyply.src.gen_dna:complement_dsDNA", "polyply.src.simple_seq_parsers:parse_ig"],
-           rejects=(), selector_only=True, must_cover=["linear", "circular"],
+           rejects=(), selector_only=True, must_cover=["linear", "circular", "-seq with -dsdna"],
            outside=["sequences other than the listed ones", "force fields other than the shipped martini2 DNA"],
            cfg={"path_timeout_s": 300},
            bounds={"quick": dict(seqs=["ACGT", "GGA", "TTTCA"]), "thorough": dict(seqs=["ACGT", "GGA", "TTTCA", "AT", "CCGGTA", "GATTACA"])},
@@ -149,6 +149,9 @@ def gen_params_dsdna(sx, B):
     import polyply.src.apply_links as al
     seq = sx.sel("sequence", B["seqs"])
     circular = sx.sel("circular", [False, True]) if len(seq) >= 3 else False
+    via_seq = (not circular) and sx.sel("sequence_given_by", ["file", "-seq on the command line"]) != "file"
+    if via_seq:
+        sx.cover("-seq with -dsdna")
     sx.cover("circular" if circular else "linear")
     n = len(seq)
     d = tempfile.mkdtemp(prefix="pverif_", dir=os.environ.get("TMPDIR"))
@@ -168,7 +171,13 @@ def gen_params_dsdna(sx, B):
             def close(self):
                 pass
         with patched(al, tqdm=_T), patched(gen_dna, tqdm=_T):
-            gi.gen_params(name="dna", outpath=Path(d) / "out.itp", lib=["martini2"], seq_file=Path(d) / "s.ig", dsdna=True)
+            if via_seq:
+                names_ = ["D" + c for c in seq]
+                names_[0] += "5"
+                names_[-1] += "3"
+                gi.gen_params(name="dna", outpath=Path(d) / "out.itp", lib=["martini2"], seq=["%s:1" % x for x in names_], dsdna=True)
+            else:
+                gi.gen_params(name="dna", outpath=Path(d) / "out.itp", lib=["martini2"], seq_file=Path(d) / "s.ig", dsdna=True)
         text = (Path(d) / "out.itp").read_text()
     finally:
         shutil.rmtree(d, ignore_errors=True)
